@@ -13,6 +13,7 @@ import warnings
 
 import backends
 import common
+import reuse
 from common import Check
 from props import c01
 
@@ -233,6 +234,7 @@ def main():
     mism = c01.structural(chk, 12 if q else 60)          # the pipelines the theorems speak about are the code's
     c01.evaluate_captured(chk, mism)
     run(chk, 6 if q else 40)
+    reuse.analyze_after_mutation(chk, 4 if q else 24, "results depend on more than the data")
     chk.cov["rule"] = ("data: 2..4 variants (int / str / bool ids), 36..412 rows, int and float columns; definitions: Mean, "
                        "Mean+cov, ratio, ratio+cov, SampleRatio (+ Quantile, 2-column Bootstrap, fixed seeds, every other "
                        "case), control None / given, all pairs, solve_power; inputs: pandas, Polars eager / lazy, PyArrow, "
